@@ -54,6 +54,7 @@ def stdlib_enum_call_signature():
 class World:
     def __init__(self, shared_names):
         self.shared_names = shared_names
+        self.meta_methods = {}
         self.effects = []  # (kind, detail, lineno)
         self.lookups = []  # (args, kwargs, lineno)
         self.truth_tests = []
@@ -133,6 +134,10 @@ class EnumCls:
             return Table(self.w, self, "member", attr)
         if attr in self.w.shared_names:
             return Table(self.w, self, "shared", attr)
+        if attr in self.w.meta_methods:
+            # a helper defined on the metaclass, reached through the class: bound to the class
+            from ..numeval import Bound
+            return Bound(self.w.meta_methods[attr], self)
         if attr in ("__name__", "__qualname__"):
             from ..numeval import Opaque
             return Opaque("class name")
@@ -272,6 +277,7 @@ def run(rep, index):
 
     def task(with_names):
         w = World(shared)
+        w.meta_methods = {f.name: FuncRef(m, f, ClassRef(m, cls)) for f in index.methods(cls) if f.name != "__call__" and not f.name.startswith("__")}
         c = EnumCls(w)
         w.value = B.fresh("value", None, None)
 
